@@ -44,13 +44,16 @@ FNAME = {  # names for reports: (struct kind, field id) -> name
     ("PageHeader", 1): "type", ("PageHeader", 2): "uncompressed_page_size", ("PageHeader", 3): "compressed_page_size",
     ("PageHeader", 4): "crc", ("PageHeader", 5): "data_page_header", ("PageHeader", 7): "dictionary_page_header",
     ("PageHeader", 8): "data_page_header_v2",
+    ("Statistics", 1): "max", ("Statistics", 2): "min", ("Statistics", 5): "max_value", ("Statistics", 6): "min_value",
+    ("KeyValue", 1): "key", ("KeyValue", 2): "value",
     ("DataPageHeader", 1): "num_values", ("DataPageHeader", 2): "encoding", ("DataPageHeader", 3): "definition_level_encoding",
     ("DataPageHeader", 4): "repetition_level_encoding", ("DictionaryPageHeader", 1): "num_values",
     ("DictionaryPageHeader", 2): "encoding",
 }
 CHILD = {("FileMetaData", 2): "SchemaElement", ("FileMetaData", 4): "RowGroup", ("RowGroup", 1): "ColumnChunk",
          ("ColumnChunk", 3): "ColumnMetaData", ("PageHeader", 5): "DataPageHeader", ("PageHeader", 7): "DictionaryPageHeader",
-         ("PageHeader", 8): "DataPageHeaderV2", ("ColumnMetaData", 12): "Statistics"}
+         ("PageHeader", 8): "DataPageHeaderV2", ("ColumnMetaData", 12): "Statistics", ("FileMetaData", 5): "KeyValue",
+         ("DataPageHeader", 5): "Statistics"}
 
 
 def tmpdir():
@@ -305,6 +308,24 @@ def mutant(rng, name, data):
     n = len(data)
     import copy
     r = rng.random()
+    t = rng.random()
+    if t < 0.03:
+        return schema_shape(data, rng.choice([1, 2, 3, 5, 8, 16, 33, 64]), rng.choice([INT32_MAX, INT32_MAX - 1, 10 ** 9, 2 ** 20, 65536, -1, -2 ** 31, 0, 2]),
+                            rng.choice(["all", "last", "first"]), rootn=rng.choice([None, None, INT32_MAX, -1, 0]))
+    if t < 0.05:
+        tree = copy.deepcopy(L.footer)
+        ensure_var_fields(tree)
+        bins = [p for p in paths_of(tree, "FileMetaData") if p[3] == T_BINARY]
+        if bins:
+            path, k, fid, _ = rng.choice(bins)
+            ln = rng.choice(boundary_lengths(True))
+            node_at(tree, path)[2] = bytes(0x41 + (i % 23) for i in range(ln))
+            return reassemble(data, L, tree), f"length-boundary:{k}.{FNAME.get((k, fid), fid)}={ln}"
+    if t < 0.09:
+        pages = all_pages(data, L)
+        if pages:
+            page = rng.choice(pages)
+            return page_end_mutant(data, L, page, rng.randrange(-3, page[5] + 4), fix_usize=rng.random() < 0.7)
     if r < 0.42:
         tree = copy.deepcopy(L.footer)
         labels = [mutate_tree(rng, tree, "FileMetaData", n)]
@@ -372,6 +393,147 @@ def mutant(rng, name, data):
     k = rng.choice([0, 1, 5, 40, 300])
     junk = bytes(rng.choice([0x19, 0x1c, 0x15, 0x16, 0x18, 0x2c, 0x00, 0xff, rng.getrandbits(8)]) for _ in range(k))
     return pq.MAGIC + b"\x00" * rng.choice([0, 4, 64]) + junk + struct.pack("<I", len(junk)) + pq.MAGIC, "framed-garbage"
+
+
+
+# ----------------------------------------------------------------------------- targeted generators (mechanisms)
+
+def arena_geometry():
+    """Block size and alignment of the metadata arena, read from the current sources (core/arena.h)."""
+    import gen_consts
+    try:
+        mac = gen_consts.file_macros((vlib.REPO / "src/core/arena.h").read_text())
+        return (gen_consts._eval_c(mac["CARQUET_ARENA_DEFAULT_BLOCK_SIZE"], mac), gen_consts._eval_c(mac["CARQUET_ARENA_ALIGNMENT"], mac))
+    except Exception:
+        return (65536, 16)
+
+
+def boundary_lengths(dense):
+    """Lengths of variable-length footer fields around the allocator's block geometry (k * block size +- 16)
+    and around powers of two."""
+    block, align = arena_geometry()
+    ds = range(-align, align + 1) if dense else (-align, -align // 2 - 1, -align // 2, -align // 2 + 1, -1, 0, 1, align // 2, align)
+    out = []
+    for k in (1, 2):
+        out += [k * block + d for d in ds]
+    for p2 in range(8, 18):
+        out += [2 ** p2 + d for d in (-1, 0, 1)]
+    return sorted(set(x for x in out if x >= 0))
+
+
+def ensure_var_fields(tree):
+    """Make sure the footer has statistics (all four binaries) in its first column chunk and a key/value entry."""
+    for rg in pq.items(pq.get(tree, 4)):
+        for cc in pq.items(pq.get(rg, 1)):
+            md = pq.get(cc, 3)
+            if md is None:
+                continue
+            st = pq.get(md, 12)
+            if st is None:
+                st = []
+                md.append([12, T_STRUCT, st])
+                md.sort(key=lambda f: f[0])
+            have = {f[0] for f in st}
+            for fid in (1, 2, 5, 6):
+                if fid not in have:
+                    st.append([fid, T_BINARY, b"v"])
+            st.sort(key=lambda f: f[0])
+            break
+        break
+    if pq.get(tree, 5) is None:
+        tree.append([5, T_LIST, ("list", T_STRUCT, [[[1, T_BINARY, b"key"], [2, T_BINARY, b"value"]]], None)])
+        tree.sort(key=lambda f: f[0])
+
+
+def length_sweep(name, data):
+    """Every kind of variable-length footer field x boundary lengths: (bytes, label) list."""
+    import copy
+    L = pq.layout(data)
+    base = copy.deepcopy(L.footer)
+    ensure_var_fields(base)
+    kinds = {}
+    for path, k, fid, t in paths_of(base, "FileMetaData"):
+        if t == T_BINARY and (k, fid) not in kinds:
+            kinds[(k, fid)] = path
+    out = []
+    for (k, fid), path in kinds.items():
+        dense = k == "Statistics"          # allocated with the arena's default alignment: every length of the window
+        for ln in boundary_lengths(dense):
+            tree = copy.deepcopy(base)
+            node_at(tree, path)[2] = bytes((i * 7 + ln) & 0x7F | 0x20 for i in range(ln))
+            out.append((reassemble(data, L, tree), f"length-sweep:{k}.{FNAME.get((k, fid), fid)}={ln}"))
+    return out
+
+
+INT32_MAX = 2 ** 31 - 1
+
+
+def schema_shape(data, depth, nchild, which, rootn=None):
+    """Nested groups in front of the leaves: schema -> g0 -> ... -> g(depth-1) -> original leaves.
+    which: 'all' = every group declares nchild children, 'last' = only the innermost, 'first' = only the outermost."""
+    import copy
+    L = pq.layout(data)
+    tree = copy.deepcopy(L.footer)
+    sch = pq.get(tree, 2)
+    elems = list(sch[2])
+    root, leaves = elems[0], elems[1:]
+    groups = []
+    for i in range(depth):
+        declared = nchild if (which == "all" or (which == "last" and i == depth - 1) or (which == "first" and i == 0)) else 1
+        if i == depth - 1 and declared == 1:
+            declared = len(leaves)
+        groups.append([[3, T_I32, 1], [4, T_BINARY, b"g%d" % i], [5, T_I32, declared]])
+    for f in root:
+        if f[0] == 5:
+            f[2] = 1 if rootn is None else rootn
+    for f in tree:
+        if f[0] == 2:
+            f[2] = ("list", T_STRUCT, [root] + groups + leaves, None)
+    return reassemble(data, L, tree), f"schema-shape:depth={depth},num_children={nchild},{which}" + (f",root={rootn}" if rootn is not None else "")
+
+
+def schema_sweep(name, data):
+    out = []
+    for depth in (1, 4, 16, 64):
+        for nchild in (INT32_MAX, -1):
+            out.append(schema_shape(data, depth, nchild, "all"))
+    out.append(schema_shape(data, 2, INT32_MAX, "last"))
+    out.append(schema_shape(data, 3, 10 ** 9, "first", rootn=INT32_MAX))
+    return out
+
+
+def page_end_mutant(data, L, page, d, fix_usize=True):
+    """compressed_page_size such that the page ends d bytes behind the end of the FILE (d <= 0: inside)."""
+    import copy
+    gi, ci, md, off, hdr, hsize, csize = page
+    hb = None
+    hs = hsize
+    for _ in range(3):
+        n2 = len(data) + (hs - hsize)
+        h2 = copy.deepcopy(hdr)
+        for f in h2:
+            if f[0] == 3:
+                f[2] = n2 - off - hs + d
+            if f[0] == 2 and fix_usize and pq.get(md, 4) == 0:
+                f[2] = n2 - off - hs + d
+        hb = pq.enc_struct(h2)
+        if len(hb) == hs:
+            break
+        hs = len(hb)
+    body = data[:off] + hb + data[off + hsize:L.footer_off]
+    tree = copy.deepcopy(L.footer)
+    shift_offsets(tree, off, len(hb) - hsize)
+    return reassemble(data, L, tree, body=body), f"page-end[{gi},{ci}]@{off}:compressed_page_size=file_end{d:+d}"
+
+
+def page_end_sweep(name, data):
+    L = pq.layout(data)
+    pages = all_pages(data, L)
+    out = []
+    for page in pages[-2:]:
+        for d in range(-2, page[5] + 3):
+            out.append(page_end_mutant(data, L, page, d))
+    return out
 
 
 # ----------------------------------------------------------------------------- running and judging
@@ -540,7 +702,7 @@ def run(tier):
         "tools/gen.d/robust.py, tools/consts.d/robust.json: regular-expression reading of the header window, limits and bounds checks of the page-load paths",
         "PARTIAL: the proof covers the bounds and termination logic (which byte ranges of the file a page load reads, which buffer sizes the decoders write, index checks, fuel) of a Gallina model; heap discipline of the real process - leaks, double frees, use after free, lifetime of zero-copy views - is observed by ASan/LSan in the forked workers, not proved",
         "the Thrift footer parse is a section variable in the open theorems; its count limits are the stated premise (parse_within_limits)",
-        "forked workers: RLIMIT_CPU 4 s, wall clock 20 s, max_allocation_size_mb=256 (larger requests fail like a malloc failure), allocator_may_return_null=1",
+        "forked workers: RLIMIT_CPU 2 s + 1 s per 256 KiB of input, wall clock 20 s, max_allocation_size_mb=256 (larger requests fail like a malloc failure), allocator_may_return_null=1",
         "checks/robust_pq.py: independent Thrift compact codec and page walker used to mutate every field of footers and page headers",
     ]
     rep.cov["rule"] = ("corpus/C04 first; then mutants of 11 (quick) / 16 (thorough) valid seed files (carquet-written: 4 schemas x codecs; "
@@ -568,8 +730,29 @@ def run(tier):
             if not o.startswith("OK"):
                 rep.tie_broken(f"a valid seed file is not read cleanly ({c[0]}, {MODES[c[3]]}, {c[4]}): {o[:200]}", c[0])
         judge(rep, cases, out, stats)
-        # 3. mutants
-        nmut = 9000 if tier == "quick" else 60000
+        # 3a. systematic sweeps (mechanisms, not single inputs): schema shapes with huge / negative child counts at
+        #     several nesting depths under the CPU budget; every kind of variable-length footer field at lengths
+        #     around the arena block geometry and powers of two; page ends around the end of the file
+        byname = dict(seeds)
+        sweep = []
+        cq_first = next((n for n, d in seeds if n.startswith("cq-")), seeds[0][0])
+        for nm in ([cq_first, "py-dict-crc"] if tier == "quick" else [n for n, d in seeds]):
+            d = byname[nm]
+            try:
+                sweep += [(nm,) + x for x in schema_sweep(nm, d)]
+                sweep += [(nm,) + x for x in page_end_sweep(nm, d)]
+                if nm == cq_first or tier != "quick":
+                    sweep += [(nm,) + x for x in length_sweep(nm, d)]
+            except Exception as e:
+                rep.tie_broken(f"sweep generator failed on seed {nm}: {e!r}", nm)
+        scases = [(nm, m, label, mode, ("M/R1000" if i % 2 else "M/B64,0")) for i, (nm, m, label) in enumerate(sweep) for mode in range(3)]
+        for a in range(0, len(scases), 1500):
+            part = scases[a:a + 1500]
+            out = run_cases(rep, drv, part, tmp, "s")
+            judge(rep, part, out, stats)
+        rep.cov["sweep_cases"] = len(scases)
+        # 3b. random mutants
+        nmut = 8000 if tier == "quick" else 60000
         cases = []
         for i in range(nmut):
             name, data = seeds[i % len(seeds)]
@@ -587,6 +770,7 @@ def run(tier):
         try:
             run_ = build_runner("robust")
             tcases = [(n, d, "unmutated") for (n, d) in seeds] + [(n, d, l) for (n, d, l, m0, s0) in cc]
+            tcases += [(nm, m, label) for (nm, m, label) in sweep if label.startswith("page-end") or label.startswith("schema-shape")]
             seen = set()
             for (n, d, l, mode, sc) in cases[::15]:
                 h = hashlib.sha1(d).digest()
